@@ -514,6 +514,28 @@ impl PartialEq for Fortune {
 
 impl Eq for Fortune {}
 
+/// verification hooks (cargo feature `verif`, off by default)
+#[cfg(feature = "verif")]
+pub mod verif {
+  use crate::tyme::eightchar::provider::{China95ChildLimitProvider, DefaultChildLimitProvider, LunarSect1ChildLimitProvider, LunarSect2ChildLimitProvider};
+  use super::CHILD_LIMIT_PROVIDER;
+
+  pub fn child_limit_provider_poisoned() -> bool {
+    CHILD_LIMIT_PROVIDER.is_poisoned()
+  }
+
+  /// 0 = Default, 1 = China95, 2 = LunarSect1, 3 = LunarSect2
+  pub fn set_child_limit_provider(kind: usize) {
+    let mut provider = CHILD_LIMIT_PROVIDER.lock().unwrap_or_else(|e| e.into_inner());
+    match kind {
+      1 => *provider = Box::new(China95ChildLimitProvider::new()),
+      2 => *provider = Box::new(LunarSect1ChildLimitProvider::new()),
+      3 => *provider = Box::new(LunarSect2ChildLimitProvider::new()),
+      _ => *provider = Box::new(DefaultChildLimitProvider::new()),
+    }
+  }
+}
+
 #[cfg(test)]
 mod tests {
   use std::sync::MutexGuard;
